@@ -250,6 +250,8 @@ func (m *Machine) stub(fn *ssa.Function, args []Value) (Value, bool) {
 		slot := m.newNode(1)
 		slot.elems[0] = st
 		return Tuple{Ptr{node: slot, idx: 0}, Iface{}}, true
+	case name == "crypto/sha256.New":
+		return Iface{typ: results.At(0).Type(), val: &StubHasher{}}, true
 	case name == "crypto/sha256.Sum256":
 		m.called["sha256.Sum256"] = true
 		cells := m.idealHash(m.cellsOf(args[0]))
@@ -516,6 +518,91 @@ func execPkg(p string) bool {
 	return false
 }
 
+// StubHasher is the hash.Hash returned by the stubbed crypto/sha256.New: it accumulates what is written; Sum applies
+// the ideal hash to it.
+type StubHasher struct {
+	cells []*Term
+}
+
+func (m *Machine) hasherInvoke(h *StubHasher, method string, args []Value) Value {
+	switch method {
+	case "Write":
+		c := m.cellsOf(args[0])
+		h.cells = append(h.cells, c...)
+		return Tuple{m.tt.Const(64, uint64(len(c))), Iface{}}
+	case "Sum":
+		m.called["sha256.Sum256"] = true
+		out := append(append([]*Term{}, m.cellsOf(args[0])...), m.idealHash(h.cells)...)
+		return m.byteSlice(out)
+	case "Reset":
+		h.cells = nil
+		return nil
+	case "Size":
+		return m.tt.Const(64, 32)
+	case "BlockSize":
+		return m.tt.Const(64, 64)
+	}
+	m.end("unsupported", "method "+method+" on stub hasher")
+	return nil
+}
+
+type syncMapEntry struct {
+	key, val Value
+}
+
+// syncMapOp models sync.Map as an association list per map object; key comparison is Go's interface equality
+// (forks on symbolic keys); Store / Delete / LoadOrStore are recorded as writes to the object holding the map.
+func (m *Machine) syncMapOp(op string, args []Value) (Value, bool) {
+	p, ok := args[0].(Ptr)
+	if !ok || p.isNil() {
+		m.end("gopanic", "sync.Map method on nil")
+	}
+	if m.syncMaps == nil {
+		m.syncMaps = map[*Node][]syncMapEntry{}
+	}
+	key := p.node
+	if n, ok := p.node.elems[p.idx].(*Node); ok {
+		key = n
+	}
+	find := func(k Value) int {
+		for i, e := range m.syncMaps[key] {
+			if m.branch(m.valEq(e.key, k)) {
+				return i
+			}
+		}
+		return -1
+	}
+	switch op {
+	case "Load":
+		if i := find(args[1]); i >= 0 {
+			return Tuple{m.copyVal(m.syncMaps[key][i].val), m.tt.Bool(true)}, true
+		}
+		return Tuple{Iface{}, m.tt.Bool(false)}, true
+	case "Store":
+		m.noteWrite(p.node, "sync.Map.Store")
+		if i := find(args[1]); i >= 0 {
+			m.syncMaps[key][i].val = m.copyVal(args[2])
+		} else {
+			m.syncMaps[key] = append(m.syncMaps[key], syncMapEntry{m.copyVal(args[1]), m.copyVal(args[2])})
+		}
+		return nil, true
+	case "LoadOrStore":
+		if i := find(args[1]); i >= 0 {
+			return Tuple{m.copyVal(m.syncMaps[key][i].val), m.tt.Bool(true)}, true
+		}
+		m.noteWrite(p.node, "sync.Map.LoadOrStore")
+		m.syncMaps[key] = append(m.syncMaps[key], syncMapEntry{m.copyVal(args[1]), m.copyVal(args[2])})
+		return Tuple{m.copyVal(args[2]), m.tt.Bool(false)}, true
+	case "Delete":
+		if i := find(args[1]); i >= 0 {
+			m.noteWrite(p.node, "sync.Map.Delete")
+			m.syncMaps[key] = append(append([]syncMapEntry{}, m.syncMaps[key][:i]...), m.syncMaps[key][i+1:]...)
+		}
+		return nil, true
+	}
+	return nil, false
+}
+
 // StubVerifier is the verifier object returned by the stubbed NewVerifier of DSA / ECDSA keys.
 type StubVerifier struct {
 	alg string
@@ -622,6 +709,8 @@ func (m *Machine) syncStub(name string, fn *ssa.Function, args []Value) (Value, 
 		return nil, true
 	case "(*sync.Mutex).TryLock", "(*sync.RWMutex).TryLock", "(*sync.RWMutex).TryRLock":
 		return m.tt.Bool(true), true
+	case "(*sync.Map).Load", "(*sync.Map).Store", "(*sync.Map).LoadOrStore", "(*sync.Map).Delete":
+		return m.syncMapOp(fn.Name(), args)
 	case "(*sync.Once).Do":
 		p, ok := args[0].(Ptr)
 		if !ok || p.isNil() {
